@@ -164,10 +164,12 @@ namespace _fmt_basics {
 			for (int i = 0; i < precision - k; i++)
 				step_grouping();
 
-		int final_width = max(k, precision) + extra;
+		// The precision may be as large as INT_MAX and the separators come on top of it:
+		// the length of the field does not fit into an int.
+		int64_t final_width = static_cast<int64_t>(max(k, precision)) + static_cast<int64_t>(extra);
 
 		if(!left_justify && final_width < width)
-			for(int i = 0; i < width - final_width; i++)
+			for(int64_t i = 0; i < width - final_width; i++)
 				sink.append(padding);
 
 		if(negative)
@@ -190,7 +192,7 @@ namespace _fmt_basics {
 		}
 
 		if(left_justify && final_width < width)
-			for(int i = final_width; i < width; i++)
+			for(int64_t i = final_width; i < width; i++)
 				sink.append(padding);
 	}
 
